@@ -13,6 +13,13 @@ pub struct Hist {
     /// counter of the last downlink the network sent that it expects to be accepted
     pub last_down: Option<u32>,
     pub devaddr: u32,
+    /// "live" generation: the events are executed on the real MAC while the line is built, so that
+    /// the generator can react to what the device did (DevNonce, derived keys, responses)
+    pub live: Option<Runner>,
+    pub outs: Vec<String>,
+    pub dead: bool,
+    pub nwk: [u8; 16],
+    pub app: [u8; 16],
 }
 
 impl Hist {
@@ -28,12 +35,41 @@ impl Hist {
             line: format!("{} mac {} {} {} {} {} {}", suite, region, max_power, gain, seed, forced_s, bias_s),
             last_down: None,
             devaddr: DEVADDR,
+            live: None,
+            outs: vec![],
+            dead: false,
+            nwk: NWK_KEY,
+            app: APP_KEY,
         }
+    }
+    /// switch on live generation (must be called before the first event)
+    pub fn go_live(&mut self) -> &mut Self {
+        self.live = parse_header_pub(&self.line);
+        self
     }
     pub fn ev(&mut self, e: &str) -> &mut Self {
         self.line.push_str(" ; ");
         self.line.push_str(e);
+        if !self.dead {
+            if let Some(r) = self.live.as_mut() {
+                let res = std::panic::catch_unwind(std::panic::AssertUnwindSafe(|| r.step(e)));
+                match res {
+                    Ok(Some(o)) => self.outs.push(o),
+                    _ => {
+                        self.dead = true;
+                        self.outs.push("PANIC".into());
+                    }
+                }
+                if !self.dead {
+                    self.nwk = r.nwk;
+                    self.app = r.app;
+                }
+            }
+        }
         self
+    }
+    pub fn last_out(&self) -> &str {
+        self.outs.last().map(|s| s.as_str()).unwrap_or("")
     }
     pub fn abp(&mut self) -> &mut Self {
         self.last_down = None;
@@ -66,7 +102,7 @@ impl Hist {
     }
     /// a received byte string in window `w` ("rx1" | "rx2" | "rxc"); `hint` = counter it was built with
     pub fn rx_bytes(&mut self, w: &str, snr: i8, bytes: &[u8], hint: Option<u32>) -> &mut Self {
-        let view = view_of(bytes, &NWK_KEY, &APP_KEY, &ROOT_KEY, hint);
+        let view = view_of(bytes, &self.nwk, &self.app, &ROOT_KEY, hint);
         let e = format!("{} {} {} {}", w, snr, hex(bytes), view);
         self.ev(&e)
     }
@@ -77,6 +113,8 @@ impl Hist {
             Some(l) => l.wrapping_add(gap),
         };
         let mut d = DownDesc::new(self.devaddr, fcnt);
+        d.nwk = self.nwk;
+        d.app = self.app;
         d.confirmed = confirmed;
         d.fopts = fopts.to_vec();
         d.fport = fport;
@@ -193,8 +231,10 @@ pub fn rejected_frame(rng: &mut Rng, h: &Hist) -> (Vec<u8>, Option<u32>, &'stati
         0 => ({ let n = rng.below(40) as usize; rng.bytes(n) }, None, "rej-random"),
         1 => {
             // authentic frame with one bit flipped
-            let fcnt = last.map(|l| l + 1).unwrap_or(5);
+            let fcnt = last.map(|l| l.wrapping_add(1)).unwrap_or(5);
             let mut d = DownDesc::new(h.devaddr, fcnt);
+            d.nwk = h.nwk;
+            d.app = h.app;
             d.fopts = rx_timing_setup_req(3);
             let mut b = d.build().unwrap();
             let i = rng.below(b.len() as u64 * 8) as usize;
@@ -203,7 +243,7 @@ pub fn rejected_frame(rng: &mut Rng, h: &Hist) -> (Vec<u8>, Option<u32>, &'stati
         }
         2 => {
             // other session (wrong key)
-            let fcnt = last.map(|l| l + 1).unwrap_or(5);
+            let fcnt = last.map(|l| l.wrapping_add(1)).unwrap_or(5);
             let mut d = DownDesc::new(h.devaddr, fcnt);
             d.nwk = OTHER_KEY;
             d.fopts = link_adr_req(2, 1, 0x0001, 0, 1);
@@ -216,6 +256,8 @@ pub fn rejected_frame(rng: &mut Rng, h: &Hist) -> (Vec<u8>, Option<u32>, &'stati
                 None => 0,
             };
             let mut d = DownDesc::new(h.devaddr, fcnt);
+            d.nwk = h.nwk;
+            d.app = h.app;
             d.fport = Some(7);
             d.payload = vec![1, 2, 3];
             (d.build().unwrap(), Some(fcnt), if last.is_some() { "rej-replay" } else { "first-frame" })
@@ -223,7 +265,9 @@ pub fn rejected_frame(rng: &mut Rng, h: &Hist) -> (Vec<u8>, Option<u32>, &'stati
         4 => {
             // far future
             let fcnt = last.unwrap_or(0).wrapping_add(16385 + rng.below(70000) as u32);
-            let d = DownDesc::new(h.devaddr, fcnt);
+            let mut d = DownDesc::new(h.devaddr, fcnt);
+            d.nwk = h.nwk;
+            d.app = h.app;
             (d.build().unwrap(), Some(fcnt), "rej-farfuture")
         }
         5 => {
@@ -238,4 +282,235 @@ pub fn rejected_frame(rng: &mut Rng, h: &Hist) -> (Vec<u8>, Option<u32>, &'stati
             (b, None, "rej-short")
         }
     }
+}
+
+
+/// uplink data rates an application may select in the region (RP002 uplink DRs the device defines)
+pub fn uplink_drs(region: &str) -> Vec<u8> {
+    match region {
+        "EU868" | "IN865" => (0..=5).collect(),
+        "EU433" => (0..=6).collect(),
+        "US915" => (0..=4).collect(),
+        "AU915" => (0..=6).collect(),
+        _ => (0..=6).collect(), // AS923
+    }
+}
+
+#[derive(Clone, Debug)]
+pub struct Opts {
+    pub steps: usize,
+    /// percentage of histories that start with an OTAA join instead of ABP
+    pub otaa_pct: u64,
+    pub class_c: bool,
+    pub rejected: bool,
+    pub cmds: bool,
+    pub counters: Option<(u32, Option<u32>)>,
+    pub bias: bool,
+    pub toggles: bool,
+    pub snaps: bool,
+}
+
+impl Default for Opts {
+    fn default() -> Self {
+        Opts { steps: 8, otaa_pct: 30, class_c: true, rejected: true, cmds: true, counters: None, bias: true, toggles: true, snaps: true }
+    }
+}
+
+pub fn some_cflist(rng: &mut Rng, region: &str) -> CfDesc {
+    match rng.below(6) {
+        0 | 1 => CfDesc::None,
+        2 | 3 => {
+            let mut f = [0u32; 5];
+            for x in f.iter_mut() {
+                *x = some_freq(rng, region);
+            }
+            CfDesc::Dynamic(f)
+        }
+        4 => {
+            let mut m = [0u8; 9];
+            for b in m.iter_mut() {
+                *b = match rng.below(4) {
+                    0 => 0,
+                    1 => 0xff,
+                    _ => rng.next() as u8,
+                };
+            }
+            CfDesc::Fixed(m)
+        }
+        _ => {
+            let mut c = [0u8; 15];
+            for b in c.iter_mut() {
+                *b = rng.next() as u8;
+            }
+            CfDesc::Rfu(2 + rng.below(254) as u8, c)
+        }
+    }
+}
+
+/// OTAA join attempt: JoinRequest, then a JoinAccept (valid / wrong key / none) in RX1 or RX2
+pub fn join_attempt(rng: &mut Rng, h: &mut Hist, accept_pct: u64) -> bool {
+    h.ev("otaa");
+    if h.dead {
+        return false;
+    }
+    let devaddr = 0x01000000 + (rng.next() as u32 & 0xffffff);
+    let dls = if rng.chance(1, 2) { rng.next() as u8 } else { (rng.below(4) as u8) << 4 | rng.below(6) as u8 };
+    let rxd = rng.next() as u8 & 0x0f;
+    let cf = some_cflist(rng, &h.region.clone());
+    let w = if rng.chance(1, 2) { "rx1" } else { "rx2" };
+    if rng.below(100) < accept_pct {
+        if rng.chance(1, 4) {
+            // a wrong-key accept first: must change nothing
+            let bad = build_join_accept(&OTHER_KEY, devaddr, dls, rxd, &cf);
+            h.rx_bytes(w, 0, &bad, None);
+        }
+        let acc = build_join_accept(&ROOT_KEY, devaddr, dls, rxd, &cf);
+        h.rx_bytes(w, 5, &acc, None);
+        h.devaddr = devaddr;
+        h.last_down = None;
+        true
+    } else {
+        if rng.chance(1, 2) {
+            let bad = build_join_accept(&OTHER_KEY, devaddr, dls, rxd, &cf);
+            h.rx_bytes(w, 0, &bad, None);
+        }
+        h.timeout();
+        false
+    }
+}
+
+/// A general random history (see Opts); returns the op line and the histogram class.
+pub fn gen_history(suite: &str, rng: &mut Rng, region: &str, o: &Opts) -> String {
+    let bias = if o.bias && is_fixed(region) && rng.chance(1, 2) { Some((1 + rng.below(8) as u8, rng.below(4) as usize)) } else { None };
+    let forced: Vec<u32> = if rng.chance(1, 6) { (0..rng.below(4)).map(|_| rng.next() as u32).collect() } else { vec![] };
+    let mut h = Hist::new(suite, region, *rng.pick(&[14u8, 20, 30, 2]), *rng.pick(&[0i8, 0, 2, -3, 6]), rng.next() & 0xffffff, &forced, bias);
+    h.go_live();
+    let mut joined;
+    if rng.below(100) < o.otaa_pct {
+        joined = join_attempt(rng, &mut h, 75);
+    } else {
+        match o.counters {
+            Some((up, down)) => {
+                h.sess(up, down, rng.below(3) as u32 * 40, false, &[], false);
+            }
+            None => {
+                h.abp();
+            }
+        }
+        joined = true;
+    }
+    if o.snaps {
+        h.snap();
+    }
+    let drs = uplink_drs(region);
+    for _ in 0..o.steps {
+        if h.dead {
+            break;
+        }
+        if o.toggles && rng.chance(1, 8) {
+            let e = format!("adr {}", rng.below(2));
+            h.ev(&e);
+        }
+        if o.toggles && rng.chance(1, 8) {
+            let e = format!("dr {}", rng.pick(&drs));
+            h.ev(&e);
+        }
+        if !joined || rng.chance(1, 25) {
+            joined = join_attempt(rng, &mut h, 75);
+            if o.snaps {
+                h.snap();
+            }
+            continue;
+        }
+        if o.class_c && rng.chance(1, 6) {
+            // Class C reception outside the Class A windows
+            if o.rejected && rng.chance(1, 2) {
+                let (b, hint, _) = rejected_frame(rng, &h);
+                h.rx_bytes("rxc", 1, &b, hint);
+                if h.last_out().starts_with("resp=DownlinkReceived") {
+                    if let Some(f) = hint {
+                        h.last_down = Some(f);
+                    }
+                }
+            } else {
+                let with_cmds = o.cmds && rng.chance(1, 2);
+                let cmds = if with_cmds { some_cmds(rng, region, 15) } else { vec![] };
+                h.rx_auth("rxc", rng.range(-10, 10) as i8, 1 + rng.below(2) as u32, rng.chance(1, 3), &cmds, Some(9), &[0xc0]);
+            }
+        }
+        let port = if rng.chance(1, 10) { 0 } else { 1 + rng.below(223) as u8 };
+        let n = rng.below(6) as usize;
+        let data = if port == 0 { vec![] } else { rng.bytes(n) };
+        h.send(port, rng.chance(1, 3), &data);
+        // the receive procedure
+        let mut done = false;
+        for w in ["rx1", "rx2"] {
+            if done || h.dead {
+                break;
+            }
+            match rng.below(10) {
+                0..=3 => {} // nothing heard in this window
+                4..=5 if o.rejected => {
+                    let (b, hint, _) = rejected_frame(rng, &h);
+                    h.rx_bytes(w, rng.range(-20, 20) as i8, &b, hint);
+                    if h.live.is_some() && h.last_out().starts_with("resp=DownlinkReceived") {
+                        // e.g. the very first frame of a session is accepted at face value
+                        if let Some(f) = hint {
+                            h.last_down = Some(f);
+                        }
+                        done = true;
+                    }
+                    if h.last_out().starts_with("resp=RxComplete") || h.last_out().starts_with("resp=NoAck") || h.last_out().starts_with("resp=SessionExpired") {
+                        done = true; // oversized frame ended the procedure
+                    }
+                }
+                6 if o.rejected => {
+                    // oversized for the window's data rate, but authentic
+                    let big = rng.bytes(230);
+                    h.rx_auth(w, 0, 1, false, &[], Some(3), &big);
+                    if h.last_out().starts_with("resp=DownlinkReceived") {
+                        done = true;
+                    } else {
+                        // not accepted: the network-side counter was not consumed
+                        h.last_down = h.last_down.map(|l| l.wrapping_sub(1));
+                        if h.last_out().starts_with("resp=RxComplete") || h.last_out().starts_with("resp=NoAck") || h.last_out().starts_with("resp=SessionExpired") {
+                            done = true;
+                        }
+                    }
+                }
+                _ => {
+                    let cmds = if o.cmds && rng.chance(2, 3) { some_cmds(rng, region, 30) } else { vec![] };
+                    let in_fopts = cmds.len() <= 15 && rng.chance(1, 2);
+                    let gap = if rng.chance(1, 10) { 1 + rng.below(16384) as u32 } else { 1 + rng.below(3) as u32 };
+                    let saved_last = h.last_down;
+                    if in_fopts {
+                        let with_data = rng.chance(1, 2);
+                        h.rx_auth(w, rng.range(-40, 40) as i8, gap, rng.chance(1, 3), &cmds, if with_data { Some(1 + rng.below(200) as u8) } else { None }, if with_data { &[1, 2, 3] } else { &[] });
+                    } else {
+                        h.rx_auth(w, rng.range(-40, 40) as i8, gap, rng.chance(1, 3), &[], Some(0), &cmds);
+                    }
+                    if h.last_out().starts_with("resp=NoUpdate") || h.last_out().starts_with("resp=NotJoined") {
+                        // e.g. too long for this window's data rate: the frame was not accepted
+                        h.last_down = saved_last;
+                    } else {
+                        done = true;
+                    }
+                }
+            }
+        }
+        if !done {
+            h.timeout();
+        }
+        if o.snaps {
+            h.snap();
+        }
+    }
+    // the device must still be able to transmit afterwards
+    if !h.dead {
+        h.send(1, false, &[0xee]).timeout();
+        if o.snaps {
+            h.snap();
+        }
+    }
+    h.done()
 }
